@@ -38,11 +38,20 @@ def run(repo: Repo, rep: Report, tier: str) -> None:
 
     # ---------------------------------------------------------------- R3.2
     gen = repo.func("visit.model.dataclass_generator:DataclassGenerator.generate")
+
+    def _prop_loops(g_):
+        L_ = Locals(g_.node)
+        return [n for n in own_nodes(g_.node) if isinstance(n, ast.For) and isinstance(n.target, ast.Tuple) and len(n.target.elts) == 2
+                and any(isinstance(x, ast.Attribute) and x.attr == "properties" for x in ast.walk(L_.inline(n.iter)))]
+
+    if len(_prop_loops(gen)) != 1:
+        from sa.flatten import flatten as _fl32
+
+        gen = _fl32(gen)  # the per-property work may have been split into helpers of the generator: written out
     cfg = CFG(gen.node)
     L = Locals(gen.node)
     # the property loop: `for <key>, <schema> in <something derived from X.properties.items()>`
-    loops = [n for n in own_nodes(gen.node) if isinstance(n, ast.For) and isinstance(n.target, ast.Tuple) and len(n.target.elts) == 2
-             and any(isinstance(x, ast.Attribute) and x.attr == "properties" for x in ast.walk(L.inline(n.iter)))]
+    loops = _prop_loops(gen)
     rep.require(len(loops) == 1, f"R3.2: expected one property loop in DataclassGenerator.generate, found {len(loops)}")
     # the containers handed to the renderer (public keyword names of render_dataclass)
     rcalls = [c for c in calls_in(gen.node) if isinstance(c.func, ast.Attribute) and c.func.attr == "render_dataclass"]
@@ -59,14 +68,26 @@ def run(repo: Repo, rep: Report, tier: str) -> None:
     map_var, list_var = container("field_mappings"), container("fields")
     if loops and (map_var is None or list_var is None):
         raise AnalysisError("R3.2: cannot identify the containers passed as field_mappings= / fields= to render_dataclass")
+    def _same_object(name: Optional[str]) -> Set[str]:
+        """names bound to the same container by plain copies in either direction (`fields_data = field_specs`)"""
+        out = {name} if name else set()
+        for _ in range(4):
+            for st in own_nodes(gen.node):
+                if isinstance(st, ast.Assign) and len(st.targets) == 1 and isinstance(st.targets[0], ast.Name) and isinstance(st.value, ast.Name):
+                    if st.targets[0].id in out or st.value.id in out:
+                        out |= {st.targets[0].id, st.value.id}
+        return out
+
     for lp in loops:
         key_var = lp.target.elts[0].id if isinstance(lp.target.elts[0], ast.Name) else None  # type: ignore[attr-defined]
         hdr = [n.id for n in cfg.nodes if n.kind == "iter" and n.stmt is lp]
+        map_names, list_names = _same_object(map_var), _same_object(list_var)
         maps = {n.id for n in cfg.nodes if n.kind == "stmt" and isinstance(n.ast, ast.Assign) and isinstance(n.ast.targets[0], ast.Subscript)
-                and isinstance(n.ast.targets[0].value, ast.Name) and L.root(n.ast.targets[0].value.id) == map_var
+                and isinstance(n.ast.targets[0].value, ast.Name) and (L.root(n.ast.targets[0].value.id) == map_var or n.ast.targets[0].value.id in map_names)
                 and isinstance(n.ast.targets[0].slice, ast.Name) and L.root(n.ast.targets[0].slice.id) == key_var}
         apps = {n.id for n in cfg.nodes if n.kind == "stmt" and n.ast is not None and any(
-            isinstance(c.func, ast.Attribute) and c.func.attr == "append" and isinstance(c.func.value, ast.Name) and L.root(c.func.value.id) == list_var
+            isinstance(c.func, ast.Attribute) and c.func.attr == "append" and isinstance(c.func.value, ast.Name) and (
+                L.root(c.func.value.id) == list_var or c.func.value.id in list_names)
             for c in calls_in(n.ast))}
         for label, nodes in ((f"wire-key mapping `{map_var}[{key_var}] = <field name>`", maps), (f"field record `{list_var}.append(...)`", apps)):
             w = None
